@@ -6,7 +6,7 @@ set -u
 D="$(readlink -f "$1")"
 SLOT="${SLOT:-0}"
 WT=/tmp/vs-wt-$$
-export CARGO_TARGET_DIR=/tmp/vs-target-$SLOT CARGO_NET_OFFLINE=true
+export CARGO_TARGET_DIR=/tmp/vs-target-$SLOT CARGO_NET_OFFLINE=true CARGO_PROFILE_DEV_DEBUG=0 CARGO_PROFILE_TEST_DEBUG=0
 crate=$(python3 -c "import json;print(json.load(open('$D/meta.json'))['demo_crate'])")
 cdir=$(python3 -c "import json;print(json.load(open('$D/meta.json'))['demo_crate_dir'])")
 git -C /repo worktree add -q --detach "$WT" HEAD || exit 2
